@@ -51,6 +51,7 @@ Definition buffer_outer_offsets (a : listarr) : list nat :=
 Definition buffer_inner_offsets (a : listarr) : list nat :=
   match buffer_offsets a with
   | [] => []
+  | [o0] => o0   (* a single level of offsets is already the innermost one (fix 0e152f8) *)
   | o0 :: rest =>
       let '(s, e) :=
         fold_left (fun '(s, e) offs => (getn offs s, getn offs e))
